@@ -28,6 +28,7 @@ TEMPLATES = {
     'strbounds': ('strbounds.vtmpl', 'src/collections/string.rs'),
     'strretain': ('strretain.vtmpl', 'src/collections/string.rs'),
     'drainfilter': ('drainfilter.vtmpl', 'src/collections/vec.rs'),
+    'intoiter': ('intoiter.vtmpl', 'src/collections/vec.rs'),
 }
 
 
